@@ -3,6 +3,7 @@ import Drv.BW
 import Drv.Agg
 import Drv.Misc
 import Drv.Conn
+import Drv.Table
 /-! Line-protocol driver: `driver <model>` reads operations on stdin, prints the model's answers. Core-only. -/
 def main (args : List String) : IO UInt32 := do
   let h ← IO.getStdin
@@ -10,11 +11,15 @@ def main (args : List String) : IO UInt32 := do
   | "dq" :: r => Drv.DQ.run r; pure 0
   | "bw" :: r => Drv.BW.run r; pure 0
   | "agg" :: r => Drv.Agg.run r; pure 0
+  | "table" :: r => Drv.Table.run r; pure 0
   | "dest" :: r => Drv.Conn.run r; pure 0
   | ["fmt"] => Drv.Misc.lines h Drv.Misc.fmt; pure 0
   | ["md5"] => Drv.Misc.lines h Drv.Misc.md5; pure 0
   | ["pk"] => Drv.Misc.lines h Drv.Misc.pk; pure 0
   | ["rw"] => Drv.Misc.lines h Drv.Misc.rw; pure 0
   | ["tk"] => Drv.Misc.lines h Drv.Misc.tk; pure 0
+  | ["absprefix"] => Drv.Misc.lines h Drv.Table.absPrefixLine; pure 0
+  | ["match"] => Drv.Misc.lines h Drv.Table.matchLine; pure 0
+  | ["rx"] => Drv.Misc.lines h Drv.Misc.rx; pure 0
   | ["val"] => Drv.Misc.lines h Drv.Misc.val; pure 0
   | _ => IO.eprintln "usage: driver <model>"; pure 2
